@@ -69,3 +69,36 @@ contract(K + "_make_request_to_broker.<_mrtb_timeout>")(type('_', (), dict(
     checkpoints={"fire:cancel#1": {"failure-recorded-before-cancel[C11]": "failure is not None and exc_is(failure, 'RequestTimedOutError')"}},
     ensures={"cancelled[C11]": "n_events('Cancel') == 1",
              "disconnects-iff-configured[C11]": "n_events('Disconnect') == ite(self._disconnect_on_timeout, 1, 0)"})))
+
+
+# ---- C08: which answers invalidate which cached routing -------------------------------------------------------------
+# reset_topic_metadata / reset_consumer_group_metadata work on dict-of-list caches outside the symbolic subset: they are
+# represented by TRUSTED contracts here (listed as an assumption) and exercised by the bounded scenarios metadata_merge /
+# handle_responses; what is proved below is WHEN _handle_responses calls them.
+_RESET_ASSUMED = ["KafkaClient.reset_topic_metadata / reset_consumer_group_metadata are represented by trusted contracts (their "
+                  "effect on the caches is exercised by the bounded scenarios, not proved)",
+                  "BrokerResponseError.raise_for_errno is modelled from the literal errnos table of afkak/common.py, "
+                  "re-extracted on every run: code 0 returns, a listed code raises its class, any other a plain "
+                  "BrokerResponseError"]
+method("reset_topic_metadata", "(%s, topic: str) -> None" % SELF, props=["C08"], trusted=True, modifies=[])
+method("reset_consumer_group_metadata", "(%s, group: Optional[str]) -> None" % SELF, props=["C08"], trusted=True, modifies=[])
+
+method("_handle_responses",
+       "(%s, responses: List[ProduceResponse], fail_on_error: bool, callback: None = None, consumer_group: Optional[str] = None) -> List[ProduceResponse]" % SELF,
+       props=["C08"], assumes=_RESET_ASSUMED, locals={"out": "List[ProduceResponse]"},
+       loops={"for#1": dict(index="i", inv=["len(out) == i", "out == responses[:i]"])},
+       checkpoints={
+           # a not-leader / unknown-partition answer invalidates that topic's routing; a coordinator error the group's;
+           # nothing else invalidates anything - whether or not the caller asked to fail on errors
+           "iteration-end:for#1": {
+               "stale-routing-invalidated[C08]":
+                   "n_calls('reset_topic_metadata') == ite(resp.error == 3 or resp.error == 6, 1, 0) and "
+                   "n_calls('reset_consumer_group_metadata') == ite(resp.error == 14 or resp.error == 15 or resp.error == 16, 1, 0)",
+               "every-response-handed-on[C08]": "not fail_on_error or resp.error == 0"},
+           "raise#1": {"invalidated-before-failing[C08]": "fail_on_error and (resp.error == 3 or resp.error == 6) and "
+                                                          "n_calls('reset_topic_metadata') == 1"},
+           "raise#2": {"invalidated-before-failing[C08]": "fail_on_error and (resp.error == 14 or resp.error == 15 or resp.error == 16) "
+                                                          "and n_calls('reset_consumer_group_metadata') == 1"},
+           "raise#3": {"other-errors-fail-only-on-request[C08,C09]": "fail_on_error and resp.error != 0"}},
+       ensures={"all-responses-in-order[C08]": "result == responses"},
+       raises={"BrokerResponseError": "fail_on_error"})
